@@ -12,8 +12,9 @@ PROP = {'engine': 'rw',
                  'no clock: a time-out is a nondeterministic event, real-time deadlines are not claimed',
                  'counters below 2^32, no allocation failure',
                  'fewer simultaneous waiters than one ObjectPool slab of wait conditions',
-                 'open finding F13: try/timed LockReadWrite from a read-lock holder (upgrade path) is excluded from timed_returns and from the generated '
-                 'stream; its triggers run from corpus/C18/rw-known-F13.ops'],
+                 'open finding F13 (timed variant only; the time-out-0 variant is fixed by /repo d881489 and covered by corpus/C18/rw-regress-F13-try.ops): a '
+                 'timed LockReadWrite from a read-lock holder (upgrade path) is excluded from timed_returns and from the generated stream; its triggers run '
+                 'from corpus/C18/rw-known-F13.ops'],
  'rule': 'one op line = 1-4 thread programs over lockR/lockW/tryR/tryW/timedR/timedW/unlockR/unlockW + a schedule (thread steps and time-out events), executed '
          'on real threads against the real ReaderWriterMutex under the deterministic cooperative scheduler and on the Lean interleaving model; per-event '
          'outcomes, holder tables, verdict (done/deadlock) and the final lock tables must agree; schedules are enumerated exhaustively up to 2 (quick) / 3 '
@@ -23,18 +24,20 @@ PROP = {'engine': 'rw',
 
 TEXT = {'design_ref': 'DESIGN.md section 4, C18 (and 3.5 for the hooks and the cooperative scheduler)',
  'technique': 'Lean 4 theorems over a small-step interleaving model of ReaderWriterMutex (every schedule, any number of threads, both preference settings: '
-              'invariants by induction over the schedule) + differential correspondence: the same thread programs and schedules run on real threads against '
-              'the real mutex under a deterministic cooperative scheduler (hooks in Mutex/WaitCondition) and on the model',
+              'four invariants proved by induction over the schedule) + differential correspondence: the same thread programs and schedules run on real '
+              'threads against the real mutex under a deterministic cooperative scheduler (hooks in Mutex/WaitCondition) and on the model',
  'text': 'Proved in Lean for every reachable configuration of the model (all programs, all schedules, both settings): a writer entry is the only executing '
          'entry (exclusion), readers do share, the total equals the sum of write counts, the executing table is a duplicate-free set of exactly the threads '
-         'with non-zero counts, the waiting tables are exactly the threads inside a wait and no waiting thread executes; per step: a failed try leaves the '
-         'state unchanged and never waits, a failed timed call removes only its own waiting entry, with writer preference a new reader is admitted only when '
-         'no writer waits, after its time-out event a plain timed acquisition returns B_TIMED_OUT in its next (always enabled) step, each successful '
-         'unlock/lock changes exactly one count.  PARTIAL: no-lost-wake-up is proved for the hand-off step (NotifySomeWaitingThreads) but its invariance over '
-         'all reachable configurations is not; deadlock freedom is proved relative to that invariant; the whole-execution form of counts = acquires - releases '
-         'is not proved (it is checked on the real tables after every step by the harness).  The model is tied to the C++ code by running both on the same '
-         'programs and schedules (bounded-preemption exhaustive + random) and by direct oracles on the real tables.',
- 'note': 'No clock (time-outs are events), sequential consistency of the hooked steps, counters < 2^32, no allocation failure.  Finding F13 (try/timed upgrade '
-         'can block in the untimed re-take of the read locks) is open: excluded from timed_returns/try_returns_at_once, shown reachable in the model '
-         '(f13_try_upgrade_blocks), triggers kept in corpus/C18/rw-known-F13.ops and reported as KNOWN-FINDING.  Theorems named *_partial say in their doc '
-         'comment what is missing.  Trusted: Lean kernel, statement file, scheduler + hooks, sampling correspondence.'}
+         'with non-zero counts, the waiting tables are exactly the threads inside a wait and no waiting thread executes, the table counts of every thread '
+         'outside the upgrade path equal its successful acquisitions minus successful releases (through recursion and upgrade), whenever nobody executes the '
+         'waiters favoured by the hand-off rule have a pending notification or are between wake-up and re-check (no lost wake-up), and every configuration '
+         'with an unfinished thread in which no finished thread still holds the lock has an enabled event (deadlock freedom); per step: a failed try '
+         '(including a try upgrade, fixed in /repo by d881489) leaves the state unchanged and never waits, a failed timed call removes only its own waiting '
+         'entry, with writer preference a new reader is admitted only when no writer waits, after its time-out event a plain timed acquisition returns '
+         'B_TIMED_OUT in its next, always enabled, step.  The model is tied to the C++ code by running both on the same programs and schedules '
+         '(bounded-preemption exhaustive + random) and by direct oracles on the real tables.',
+ 'note': 'No clock (time-outs are events), sequential consistency of the hooked steps, counters < 2^32, no allocation failure.  Finding F13, timed variant (a '
+         'timed read-to-write upgrade re-takes its read locks with the untimed LockReadOnly() and can block past its deadline) is open: excluded from '
+         'timed_returns, shown reachable in the model (f13_timed_upgrade_blocks), triggers kept in corpus/C18/rw-known-F13.ops and reported as KNOWN-FINDING; '
+         'the time-out-0 variant is fixed and guarded by corpus/C18/rw-regress-F13-try.ops and try_upgrade_never_blocks.  Trusted: Lean kernel, statement '
+         'file, scheduler + hooks, sampling correspondence.'}
